@@ -145,7 +145,8 @@ def replay(run, payload):
     for a in av:
         p = os.path.normpath(os.path.join(scn.get('cwd', '/'), a))
         args.append({'arg': a, 'kind': '?', 'entry': p if p in before and os.path.basename(a.rstrip('/')) not in ('.', '..') else None, 'expect': '?'})
-    putlib.conservation(run, scn, {'args': args, 'mode': '?'}, res, 'state')
+    meta = scn.get('judge_meta') or {'args': args, 'mode': '?'}
+    putlib.conservation(run, scn, meta, res, 'state')
     if o['exc'] is not None and not (scn['steps'][0].get('plan') or {}):
         run.fail('oracle', 'trash-put ended with an uncaught exception (exit %s)' % o['exit'], {'scenario': scn, 'exc': o['exc']},
                  key='uncaught-exception', section='state')
